@@ -28,6 +28,17 @@ CLAIMED = {
         note=("Trusted: the one-buffer parse of the same build as the reference outcome (C02 judges that one). ASan+UBSan build. "
               "read_to is exercised on value/begin events only; CBOR maps with non-text keys are abstained."),
         technique="exhaustive enumeration of split points / buffer sizes x access modes on the real code, differential oracle"),
+    "C09": dict(
+        level="model_checking", ref="DESIGN.md §4 C09",
+        text=("Explicit-state BFS over two real basic_json variables (json and ojson) under ~60 operations to depth 5 (thorough 7), "
+              "states de-duplicated on a kind-exact canonical form incl. capacities; every transition is checked against a reference "
+              "model (vector / sorted or insertion-ordered pairs of model values) through all observers; plus the relational laws "
+              "(antisymmetric compare, symmetric ==, operators agree with compare, equal identical-kind values print identically) over "
+              "all ordered pairs of a ~110-value alphabet covering every storage kind/tag/reference wrapper, and is<T>() => as<T>() exact "
+              "over numeric boundary values. Sanitizer reports per transition count as violations."),
+        note=("Trusted: the reference model in harness/c09.cpp. Bounds: operation alphabet, depth, value alphabet as in evidence.rule. "
+              "Undefined-precondition operations are resynchronised, not predicted."),
+        technique="explicit-state BFS on the real objects against a reference model + exhaustive pairwise relational checks"),
 }
 
 PENDING = "check not built yet in this session (see DESIGN.md §8 build order); no claim is made"
